@@ -182,6 +182,25 @@ def replay_frame(beh, seed, scale=1.0):
                     d = None
                 if d is not None:
                     return d
+        elif name == "AddNoiseFromObsRefused":
+            which = act["which"]
+            mean_t, std_t, min_t = MEAN_TAB, STD_TAB, None
+            if which == "std_longer":
+                std_t = np.append(STD_TAB, STD_TAB[:2])
+            elif which == "min_longer":
+                min_t = np.append(MIN_TAB, MIN_TAB[:2])
+            else:
+                min_t = MIN_TAB[:1]          # any drawn index but 0 would be out of range: refused beforehand all the same
+            rng_before = repr(fr.rng.bit_generator.state)
+            try:
+                fr.add_noise_from_obs(x_mean_array=mean_t, x_std_array=std_t, x_min_array=min_t, share_index=True, noise_type="gaussian")
+                return Div("mismatched_tables_accepted", "IndexError", "noise added", n)
+            except IndexError:
+                pass
+            if not np.array_equal(fr.data, before) or (fr.noise_mean, fr.noise_std) != est_before or repr(fr.rng.bit_generator.state) != rng_before:
+                return Div("refused_call_left_a_trace", "data, estimates and generator state unchanged",
+                           {"data_changed": bool(not np.array_equal(fr.data, before)), "estimates": [fr.noise_mean, fr.noise_std],
+                            "generator_advanced": repr(fr.rng.bit_generator.state) != rng_before}, n)
         elif name == "ZeroData":
             fr.zero_data()
             if np.any(fr.data != 0) or fr.noise_mean != 0 or fr.noise_std != 0:
